@@ -267,6 +267,9 @@ Inductive op :=
 | Tick (dt : Z) | Sync (f : option fault) | Cleanup | SetMode (m : mode)
 | Restart          (* a new daemon process on the same data directory: whatever the old process held in
                       memory is gone, both database FILES are what they were *)
+| Copier (f : option fault)   (* one turn of the BackgroundDBCopy loop: the copy (its outcome goes to the log),
+                                 then cleanupDBData on the primary and on the cache; between two turns the loop
+                                 sleeps ProfileStorage.SyncInterval — WHEN a turn happens is the history's choice *)
 | Load (u : ukey) | GetS (u t : N) | Users
 | Handler (h : hkind) (u : ukey) (b : N).
 
@@ -359,6 +362,11 @@ Definition step_gen (guarded write_through : bool) (reports : rfail -> bool) (sy
               else (s, OSync false)              (* the first source query fails *)
   | Cleanup => let s1 := if writable s then with_primary s (cleanupf (now s) (primary s)) else s in
                (with_cache s1 (cleanupf (now s) (cache s1)), OOk)
+  | Copier f => let '(s0, x) := (if writable s
+                                 then let '(c, ok) := syncf (primary s) (now s) f (cache s) in (with_cache s c, OSync ok)
+                                 else (s, OSync false)) in
+                let s1 := if writable s0 then with_primary s0 (cleanupf (now s0) (primary s0)) else s0 in
+                (with_cache s1 (cleanupf (now s0) (cache s1)), x)
   | SetMode m => (mk_state (primary s) (cache s) (now s) m, OOk)
   | Load u => match read_source reports (pmode s) with
               | ReadFails => (s, OErr)
@@ -398,6 +406,19 @@ Fixpoint run_gen (st : state -> op -> state * out) (s : state) (ops : list op) :
   end.
 Definition run := run_gen step.
 Definition final (ops : list op) : state := fst (run init ops).
+
+(* ghost: the user profiles the primary held when the last copy completed (a Sync or a turn of the
+   copier that reported success); run_ghost carries it along a history *)
+Definition completes (o : op) (x : out) : bool :=
+  match o, x with
+  | Sync _, OSync true | Copier _, OSync true => true
+  | _, _ => false
+  end.
+Fixpoint run_ghost (s : state) (g : list (ukey * N)) (ops : list op) : state * list (ukey * N) :=
+  match ops with
+  | [] => (s, g)
+  | o :: r => let '(s1, x) := step s o in run_ghost s1 (if completes o x then profiles (primary s) else g) r
+  end.
 
 (* ------------------------------------------------------------------ comparison helpers for case files *)
 Definition opt_eqb {A} (e : A -> A -> bool) (a b : option A) : bool :=
@@ -509,6 +530,19 @@ Definition classify (s : state) (o : op) (x : out) (sn : option (db * db)) : nat
                if same_db c (cache s)
                then match f with None => if writable s then 4%nat else 0%nat | Some _ => 0%nat end
                else if writable s && same_db c cnew then 3%nat else 2%nat
+           | _ => 0%nat
+           end
+  | Copier f, Some (p, c) =>
+      (* the copy of a turn of the copier, then the purge: judged on the user profiles, which the purge leaves alone *)
+      let cnew := fst (sync (primary s) (now s) None (cache s)) in
+      let same_p a b := same_map ukey_eqb N.eqb (profiles a) (profiles b) in
+      if negb (same_p p (primary s)) then 5%nat
+      else match x with
+           | OSync true => if writable s && same_p c cnew then 0%nat else 1%nat
+           | OSync false =>
+               if same_p c (cache s)
+               then match f with None => if writable s then 4%nat else 0%nat | Some _ => 0%nat end
+               else if writable s && same_p c cnew then 3%nat else 2%nat
            | _ => 0%nat
            end
   | Restart, Some (p, c) => if same_db p (primary s) && same_db c (cache s) then 0%nat else 6%nat
